@@ -98,6 +98,12 @@ impl<const BITS: usize> Context<BITS> {
         Self { eng, buf, buflen }
     }
 
+    /// verification hook: preset the two words of the byte counter
+    #[cfg(cryptoxide_verif)]
+    pub fn verif_set_counter(&mut self, t0: u32, t1: u32) {
+        self.eng.t = [t0, t1];
+    }
+
     /// Update the hashing state by adding the input bytes slice into the state
     pub fn update(mut self, input: &[u8]) -> Self {
         self.update_mut(input);
@@ -227,6 +233,12 @@ impl ContextDyn {
             buflen,
             outlen: output_bytes,
         }
+    }
+
+    /// verification hook: preset the two words of the byte counter
+    #[cfg(cryptoxide_verif)]
+    pub fn verif_set_counter(&mut self, t0: u32, t1: u32) {
+        self.eng.t = [t0, t1];
     }
 
     /// Update the hashing state by adding the input bytes slice into the state
